@@ -218,11 +218,21 @@ macro_rules! register_window {
     };
     (MultiThread, $window:expr, $processor:expr, $window_iri:expr) => {{
         let receiver = $window.register();
+        #[cfg(kolibrie_verif)]
+        let verif_token = crate::verif_sched::pre_spawn();
         thread::spawn(move || {
+            #[cfg(kolibrie_verif)]
+            crate::verif_sched::thread_begin(verif_token);
             loop {
+                #[cfg(kolibrie_verif)]
+                crate::verif_sched::before_recv();
                 match receiver.recv() {
                     Ok(content) => {
+                        #[cfg(kolibrie_verif)]
+                        crate::verif_sched::after_recv();
                         $processor(content);
+                        #[cfg(kolibrie_verif)]
+                        crate::verif_sched::point();
                     }
                     Err(_) => {
                         debug!("Shutting down window {}!", $window_iri);
@@ -231,7 +241,11 @@ macro_rules! register_window {
                 }
             }
             debug!("Shutdown complete for window {}!", $window_iri);
+            #[cfg(kolibrie_verif)]
+            crate::verif_sched::thread_end();
         });
+        #[cfg(kolibrie_verif)]
+        crate::verif_sched::point();
     }};
 }
 
